@@ -31,6 +31,22 @@ Proof. reflexivity. Qed.
 Lemma helper_bodies_as_modelled : helper_shapes = pinned_shapes.
 Proof. reflexivity. Qed.
 
+(* the op-code the model assigns to a function call is the one the compiler's tables assign *)
+Lemma fn_opcode_follows_compiler_lemma : forall name args, fn_opcode name args = compiler_fn_opcode name args.
+Proof.
+  intros name args. unfold fn_opcode, compiler_fn_opcode, fn_is.
+  cbn [find compiler_fn_table fst snd].
+  unfold s_position, s_last, s_count, s_not, s_true_fn, s_false_fn, s_boolean, s_name, s_local_name, s_number,
+    s_floor, s_ceiling, s_round, s_sum, s_string_length.
+  repeat match goal with
+         | |- context [str_eqb name ?K] =>
+             let T := fresh "T" in
+             destruct (str_eqb name K) eqn:T;
+             [apply str_eqb_eq in T; subst name; destruct args; reflexivity |]
+         end.
+  reflexivity.
+Qed.
+
 (** * Part 2: one value *)
 Definition forget {A} (r : res A) : option A := match r with Ok a => Some a | Err _ => None end.
 Definition obind {A B} (o : option A) (f : A -> option B) : option B :=
